@@ -664,18 +664,23 @@ def run(env: Env) -> Outcome:
         owner: list[tuple[int, str]] = []
         found: list[Violation] = []
         for ci, case in enumerate(cases):
-            outs, vs = run_case(R, I, case, STORE_KINDS)
+            # the per-call-connection SQLite store is slow (two connections per op): in the quick tier it runs the
+            # corpus and every third generated stream; the single-connection store runs everything
+            kinds_here = STORE_KINDS if (env.tier != "quick" or "name" in case or ci % 3 == 0) else [k for k in STORE_KINDS if k != "sql0"]
+            outs, vs = run_case(R, I, case, kinds_here)
             for v in vs:
                 if not any(f.signature == v.signature for f in found) and len(found) < 12:
                     found.append(shrink(R, I, v) if len(found) < 2 else v)
             for backend, kinds in (("mem", ["mem"]), ("memN", ["memN"]), ("sql", ["sql0", "sql1"])):
                 for kind in kinds:
+                    if kind not in outs:
+                        continue
                     ml = model_lines(case, backend)
                     lines += ml
                     impl += ["ok"] + outs[kind]
                     owner += [(ci, kind)] * len(ml)
             # bookkeeping
-            out.evaluations += len(case["ops"]) * len(STORE_KINDS)
+            out.evaluations += len(case["ops"]) * len(kinds_here)
             out.count("max_completed:" + o(case["max"]))
             evicted = False
             for op, res in zip(case["ops"], outs["mem"]):
@@ -705,7 +710,7 @@ def run(env: Env) -> Outcome:
         except Exception as e:
             out.divergences.append(Divergence("handlerstore", 0, "<driver>", repr(e), ""))
             return out
-        out.traces_validated = len(cases) * 4
+        out.traces_validated = sum(1 for i, x in enumerate(owner) if i == 0 or owner[i - 1] != x)
         out.disagreements_checked = len(lines)
         d = diff_streams("handlerstore", lines, model_out, impl)
         if d is not None:
